@@ -61,8 +61,19 @@ def gen_plan_c08b(seed, tier, index):
                            'descenders': r.random() < 0.5} for _ in range(k)]
             p['canvas'] = canvas
             p['region_poly'] = r.choice(['rect', 'rect', 'penta', 'penta2', 'tri_ul', 'tri_lr'])
+    if mode == 'ocr' and r.random() < 0.4:
+        cfg['postprocess'] = {'stretch': r.choice([16, 40, 40]), 'resample': r.random() < 0.3}
+        for p in pages:
+            p['tilt'] = r.choice([0, 10, -10])            # regions with different text tilts ...
+            if r.random() < 0.4:
+                p['lines'] = p['lines'][:1]                  # ... and pages that consist of a single line (a heading)
+                p['regions'] = 1
+    if mode == 'decode' and r.random() < 0.2:
+        cfg['charset'] = 'arabic'
+        cfg['space'] = True
+        cfg['nchars'] = d['nchars'] = 6
     plan = {'world': 'pf8', 'mode': mode, 'with_images': False, 'cfg': cfg, 'pages': pages,
-            'outputs': ['xml'] + (['alto'] if r.random() < 0.4 else []), 'procs': 1,
+            'outputs': ['xml'] + (['alto'] if (r.random() < 0.4 or cfg.get('charset') == 'arabic') else []), 'procs': 1,
             'clock': {'inc': [0.001, 0.02], 'jumps': {}}}
     if mode == 'ocr':
         plan['outputs'] += [k for k in ('lines', 'logits') if r.random() < 0.4]
